@@ -46,6 +46,8 @@ func gen(args []string) {
 		genSplit(w, tier, r)
 	case "QUOTE":
 		genQuote(w, tier, r)
+	case "SPEC":
+		genSpec(w, tier, r)
 	default:
 		fmt.Fprintln(os.Stderr, "unknown channel", ch)
 		os.Exit(2)
